@@ -78,10 +78,6 @@ type rtype struct {
 
 // Hash functions and equivalence relation:
 
-
-
-
-
 func (x array) eq(t types.Type, _y interface{}) bool {
 	y := _y.(array)
 	tElt := t.Underlying().(*types.Array).Elem()
@@ -92,7 +88,6 @@ func (x array) eq(t types.Type, _y interface{}) bool {
 	}
 	return true
 }
-
 
 func (x structure) eq(t types.Type, _y interface{}) bool {
 	y := _y.(structure)
@@ -107,7 +102,6 @@ func (x structure) eq(t types.Type, _y interface{}) bool {
 	return true
 }
 
-
 // nil-tolerant variant of types.Identical.
 func sameType(x, y types.Type) bool {
 	if x == nil {
@@ -120,8 +114,6 @@ func (x iface) eq(t types.Type, _y interface{}) bool {
 	y := _y.(iface)
 	return sameType(x.t, y.t) && (x.t == nil || equals(x.t, x.v, y.v))
 }
-
-
 
 func (x rtype) eq(_ types.Type, y interface{}) bool {
 	return types.Identical(x.t, y.(rtype).t)
@@ -197,7 +189,6 @@ func equals(t types.Type, x, y value) bool {
 	// (handled in eqnil) or via interface{} values.
 	panic(fmt.Sprintf("comparing uncomparable type %s", t))
 }
-
 
 // reflect.Value struct values don't have a fixed shape, since the
 // payload can be a scalar or an aggregate depending on the instance.
